@@ -132,8 +132,44 @@ class EFloatContext___init__(Contract):
     properties = ['C01']
     binds = {'self.nan_value': 'nan_value', 'self.inf_value': 'inf_value', 'self.rng': 'rng'}
     split = ['nan_kind', 'nan_value', 'inf_value']
+    # substitutes: minutes per case (membership of a symbolic value in a symbolic format): thorough tier only
+    options = {'noax_first_ms': 8000, 'light_theory': True, 'symbolic_tier': 'thorough',
+               'opaque': {'fits_p': ['all', 'bool'], 'mag_lt_ec': ['all', 'bool']}}
+
+    def post(self, es, nbits, enable_inf, nan_kind, eoffset, rm, overflow, num_randbits, rng, nan_value, inf_value, result):
+        return {
+            'fields': self.es == es and self.nbits == nbits and self.enable_inf == enable_inf
+                      and self.nan_kind.name == nan_kind.name and self.eoffset == eoffset,
+            'rm': self.rm.name == rm.name,
+            'overflow': self.overflow.name == overflow.name,
+            'num_randbits': (self.num_randbits is None) if num_randbits is None
+                            else (self.num_randbits is not None and self.num_randbits == num_randbits),
+            'inv': ef2_ctx_inv(self),
+            'mpb_cfg': ef2_ctx_cfg(self),
+            # K5: the substitutes are members of the format
+            'nan_value_member': ef2_member(self, nan_value) if (nan_value is not None and nan_kind.name == 'NONE') else True,
+            'inf_value_member': (ef2_member_signed(self, inf_value, False) and ef2_member_signed(self, inf_value, True))
+                                if (inf_value is not None and not enable_inf) else True,
+        }
+
+    def raises(self, es, nbits, enable_inf, nan_kind, eoffset, rm, overflow, num_randbits, rng, nan_value, inf_value):
+        nk = nan_kind.name
+        return {'ValueError': overflow.name == 'WRAP' or not ef2_valid(es, nbits, enable_inf, nk)
+                              or ef2_ctor_subst_bad(es, nbits, enable_inf, nk, eoffset, nan_value, inf_value)}
+
+
+class EFloatContext___init___plain(Contract):
+    target = 'fpy2.number.context.efloat:EFloatContext.__init__'
+    params = {'self': 'EFloatContext', 'es': 'int', 'nbits': 'int', 'enable_inf': 'bool', 'nan_kind': 'EFloatNanKind',
+              'eoffset': 'int', 'rm': 'RoundingMode', 'overflow': 'OverflowMode', 'num_randbits': 'int | None',
+              'rng': 'RNG | None', 'nan_value': 'None', 'inf_value': 'None'}
+    returns = 'None'
+    properties = ['C01']
+    binds = {'self.nan_value': 'nan_value', 'self.inf_value': 'inf_value', 'self.rng': 'rng'}
+    split = ['nan_kind']
+    inline = True      # the variant without substitutes (quick tier); EFloatContext___init__ is the full contract
     options = {'noax_first_ms': 8000, 'light_theory': True,
-               'opaque': {'fits_p': ['all', 'bool'], 'grid_ok': ['all', 'bool'], 'mag_lt_ec': ['all', 'bool']}}
+               'opaque': {'fits_p': ['all', 'bool'], 'mag_lt_ec': ['all', 'bool']}}
 
     def post(self, es, nbits, enable_inf, nan_kind, eoffset, rm, overflow, num_randbits, rng, nan_value, inf_value, result):
         return {
